@@ -81,6 +81,7 @@ def handle : DrvHandler := fun op args =>
       let now ← jInt? (← jField? j "now")
       let lat ← jInt? (← jField? j "lat")
       let cap ← jInt? (← jField? j "cap")
+      let rtt ← jInt? (← jField? j "rtt")
       let fuel ← jNat? (← jField? j "fuel")
       let univ ← jStrList? (← jField? j "universe")
       -- an invocation the implementation never made has no observed outcome: a marked non-final one
@@ -91,7 +92,7 @@ def handle : DrvHandler := fun op args =>
         limits := fun i => (C02.lookupD limitsL i).getD { timeout := none, retries := none },
         lifecycle,
         exec := fun i n => ((C02.lookupD oT i).bind (fun rows => (rows.find? (·.1 == n)).map (·.2))).getD missing,
-        prematch, changeReq, foreignFins, constPatch, lat, cap }
+        prematch, changeReq, foreignFins, constPatch, lat, rtt, cap }
       let s0 : State Nat := { P := C02.lookupD pL, base, ess := 0, marked, blocked, gone := false, noticed, fullyHandled, now,
                               pending := true, writes := 0 }
       let (rows, s) := runLoop env univ fuel s0 []
